@@ -23,10 +23,9 @@ TRUSTED = [
 def scripts_for(ctx: Ctx):
     rng = ctx.rng
     scripts = list(gen.boundary_c12())
-    for _ in range(ctx.n(380, 20000)):
+    for _ in range(ctx.n(800, 20000)):
         scripts.append(gen.random_script(rng, 30, "c12"))
-    if not ctx.quick:
-        scripts += gen.exhaustive_c12(3)
+    scripts += gen.exhaustive_c12(2 if ctx.quick else 4)
     return scripts
 
 
@@ -38,7 +37,13 @@ def run(ctx: Ctx):
         "message or transport close; distinct by the full per-connection transport log (virtual time, kind, content)."
     )
     ctx.assumptions.append("address reuse only after the previous loss was processed (generator-enforced)")
-    base.evaluate(ctx, scripts_for(ctx), "C12")
+    base.evaluate(ctx, scripts_for(ctx), "C12", crypto_of=base.crypto_of)
+    if not ctx.quick:
+        # exhaustive scripts of length 5 over the 2-connection / 1-characteristic alphabet: oracle only
+        before = ctx.stats.evaluations
+        base.evaluate(ctx, gen.exhaustive_c12(5), "C12", compare_model=False, sample=False)
+        ctx.stats.notes.append(f"exhaustive length-5 scripts judged by the oracle only: {ctx.stats.evaluations - before}")
+        ctx.stats.exhaustive = True
 
 
 def search(ctx: Ctx):
